@@ -262,6 +262,8 @@ class MiniEval(object):
             if not isinstance(base, (list, dict)):
                 raise Undecided("minieval: store into %s" % norm(t.value))
             base[self.ev(t.slice, env)] = v
+        elif isinstance(t, ast.Attribute) and isinstance(t.value, ast.Name) and env.get(t.value.id) == ("<self>",):
+            self.self_attrs[t.attr] = v           # the receiver's attributes are the evaluation's own state
         else:
             raise Undecided("minieval: assignment target %s" % norm(t))
 
